@@ -153,7 +153,9 @@ theorem InField.imp {fs : FieldSet} {ext : Nat} {P Q : (F : Type) → EF F → P
 theorem verifyParsed_ok (H : HashParams) (fs : FieldSet) (d : Desc) (pub : PubInputs)
     (acc : Security.Acceptable) (p : ProofM) (h : verifyParsed H fs d pub acc p = .ok ()) :
     ∃ ctx ctxEls, validateOptions H acc p.context = .ok () ∧
+      p.context.modulus = leBytes fs.fp.bytes fs.fp.m ∧
       contextElements fs.fp p.context = some ctxEls ∧
+      p.context.options.queries < p.context.info.length * p.context.options.blowup ∧
       airNew d p.context.info p.context.options = some ctx ∧
       InField fs p.context.options.ext (fun _ ef =>
         verifyIn H fs.fp ef d pub p ctx (ctxEls ++ pubElements fs.fp d pub) = .ok ()) := by
@@ -163,29 +165,35 @@ theorem verifyParsed_ok (H : HashParams) (fs : FieldSet) (d : Desc) (pub : PubIn
   · rename_i u hval
     split at h
     · cases h
-    · rename_i ctxEls hels
+    · rename_i hmod
       split at h
       · cases h
-      · split at h
+      · rename_i ctxEls hels
+        split at h
         · cases h
         · split at h
           · cases h
-          · rename_i ctx hctx
-            refine ⟨ctx, ctxEls, hval, hels, hctx, ?_⟩
+          · rename_i hq
             split at h
-            · rename_i h1; exact Or.inl ⟨h1, h⟩
-            · rename_i h1
-              split at h
-              · rename_i h2
+            · cases h
+            · split at h
+              · cases h
+              · rename_i ctx hctx
+                refine ⟨ctx, ctxEls, hval, by simpa using hmod, hels, by omega, hctx, ?_⟩
                 split at h
-                · cases h
-                · rename_i ef hef
-                  exact Or.inr (Or.inl ⟨h2, ef, hef, h⟩)
-              · rename_i h2
-                split at h
-                · cases h
-                · rename_i ef hef
-                  exact Or.inr (Or.inr ⟨h1, h2, ef, hef, h⟩)
+                · rename_i h1; exact Or.inl ⟨h1, h⟩
+                · rename_i h1
+                  split at h
+                  · rename_i h2
+                    split at h
+                    · cases h
+                    · rename_i ef hef
+                      exact Or.inr (Or.inl ⟨h2, ef, hef, h⟩)
+                  · rename_i h2
+                    split at h
+                    · cases h
+                    · rename_i ef hef
+                      exact Or.inr (Or.inr ⟨h1, h2, ef, hef, h⟩)
 
 theorem verifyModel_ok (H : HashParams) (fs : FieldSet) (d : Desc) (pub : PubInputs)
     (acc : Security.Acceptable) (bytes : Bytes) (h : verifyModel H fs d pub acc bytes = .ok ()) :
